@@ -201,6 +201,14 @@ template <class Base> struct mk_kvtraits<Base, 0, false> : Base { typedef key_le
 template <class Base> struct mk_kvtraits<Base, 1, false> : Base { typedef key_cmp compare; };
 template <class Base> struct mk_kvtraits<Base, 0, true> : Base { typedef key_less less; typedef cds::atomicity::item_counter item_counter; };
 
+// API form: plain overloads, or the *_with( key, less ) overloads (erase_with / extract_with / find_with /
+// contains( key, less )); chosen per case.  The predicate must imply the container's order: key_less does.
+static bool g_use_with = false;
+// split lists: hash = key (injective) or key >> 1 (pairs of keys with the SAME split-order hash, so that the
+// key comparator decides inside a run of equal hashes)
+static bool g_split_coll = false;
+struct long_less { bool operator()( long a, long b ) const { return a < b; } };
+
 // ---------------------------------------------------------------- container set-like lists
 
 // MichaelList / LazyList over HP, DHP, RCU: update functor ( bool bNew, value_type& item, Q const& key )
@@ -213,16 +221,24 @@ struct SetListML : IMap {
     {
         return l.update( kv( k, v ), []( bool, kv& item, kv const& key ) { item.val = key.val; }, allow );
     }
-    bool erase( long k, long& v ) override { return l.erase( kv( k, 0 ), [&v]( kv const& item ) { v = item.val; } ); }
+    bool erase( long k, long& v ) override
+    {
+        if ( g_use_with ) return l.erase_with( kv( k, 0 ), key_less(), [&v]( kv const& item ) { v = item.val; } );
+        return l.erase( kv( k, 0 ), [&v]( kv const& item ) { v = item.val; } );
+    }
     bool extract( long k, long& v ) override
     {
-        auto p = l.extract( kv( k, 0 ));
+        auto p = g_use_with ? l.extract_with( kv( k, 0 ), key_less()) : l.extract( kv( k, 0 ));
         if ( !p ) return false;
         v = p->val;
         return true;
     }
-    bool find( long k, long& v ) override { return l.find( kv( k, 0 ), [&v]( kv& item, kv const& ) { v = item.val; } ); }
-    bool contains( long k ) override { return l.contains( kv( k, 0 )); }
+    bool find( long k, long& v ) override
+    {
+        if ( g_use_with ) return l.find_with( kv( k, 0 ), key_less(), [&v]( kv& item, kv const& ) { v = item.val; } );
+        return l.find( kv( k, 0 ), [&v]( kv& item, kv const& ) { v = item.val; } );
+    }
+    bool contains( long k ) override { return g_use_with ? l.contains( kv( k, 0 ), key_less()) : l.contains( kv( k, 0 )); }
 };
 
 // IterableList: update replaces the data of the node
@@ -283,19 +299,27 @@ struct KVListML : IMap {
     {
         return l.update( k, [v]( bool, value_type& item ) { item.second = v; }, allow );
     }
-    bool erase( long k, long& v ) override { return l.erase( k, [&v]( value_type& item ) { v = item.second; } ); }
+    bool erase( long k, long& v ) override
+    {
+        if ( g_use_with ) return l.erase_with( k, long_less(), [&v]( value_type& item ) { v = item.second; } );
+        return l.erase( k, [&v]( value_type& item ) { v = item.second; } );
+    }
     bool extract( long k, long& v ) override
     {
         if ( lockfn ) lockfn();
-        auto p = l.extract( k );
+        auto p = g_use_with ? l.extract_with( k, long_less()) : l.extract( k );
         bool ok = bool( p );
         if ( ok ) v = p->second;
         if ( unlockfn ) unlockfn();
         p.release();      // outside the RCU lock
         return ok;
     }
-    bool find( long k, long& v ) override { return l.find( k, [&v]( value_type& item ) { v = item.second; } ); }
-    bool contains( long k ) override { return l.contains( k ); }
+    bool find( long k, long& v ) override
+    {
+        if ( g_use_with ) return l.find_with( k, long_less(), [&v]( value_type& item ) { v = item.second; } );
+        return l.find( k, [&v]( value_type& item ) { v = item.second; } );
+    }
+    bool contains( long k ) override { return g_use_with ? l.contains( k, long_less()) : l.contains( k ); }
 };
 
 template <class L>
@@ -376,7 +400,7 @@ struct bad_hash {
 };
 // identity-like hash for split lists, so that bucket = key mod bucket_count
 struct ident_hash {
-    template <class T> size_t operator()( T const& v ) const { return size_t( key_of::k( v )); }
+    template <class T> size_t operator()( T const& v ) const { return g_split_coll ? size_t( key_of::k( v )) >> 1 : size_t( key_of::k( v )); }
 };
 
 // Feldman: hash = key << shift, so that all keys share the first `shift` bits of the bit string
@@ -558,6 +582,8 @@ struct Fixture {
         typedef cds::gc::DHP DHP;
         typedef cds::gc::nogc NOGC;
         std::string const& v = c.variant;
+        g_use_with = ( c.index % 4 ) == 3 && c.optl( "with", 1 ) != 0;
+        g_split_coll = (( c.index / 4 ) % 2 ) == 1 && c.optl( "coll", 1 ) != 0;
         g_hints = c.optl( "hints", 1 ) != 0;
         bool odd = ( c.index % 2 ) != 0;
         auto gpi = [this] { after = [] { rcu_gpi::force_dispose(); }; };
